@@ -99,7 +99,7 @@ def run(ctx):
         if '2d' in f.name:
             fm = FactMap(f.node)
             rets = [(k, s, facts) for (k, s, facts) in fm.exits if k == 'return']
-            ok = all(any(a == ('==', 'blockshape[0]', '1') for a in facts) for (k, s, facts) in rets)
+            ok = all(any(a in (('==', 'blockshape[0]', '1'), ('==', '1', 'blockshape[0]')) for a in facts) for (k, s, facts) in rets)
             if ok:
                 ctx.ok('C19.1', f, f.name, '2D entry requires blockshape[0] == 1')
             else:
@@ -166,17 +166,47 @@ def rate_pair(ctx, rule):
             continue
         f = s.func
         ft = TB.fmt_type(s.fmt)
-        # definition(s) of the stored local
+        # definition(s) of the stored local, as (condition on the rate, value form) pairs
         name = U(s.value)
         defs = [n for n in ast.walk(f.node) if isinstance(n, ast.Assign) and U(n.targets[0]) == name]
-        neg = [d for d in defs if isinstance(d.value, ast.UnaryOp) and isinstance(d.value.op, ast.USub)
-               and '1 /' in U(d.value)]
-        pos = [d for d in defs if d not in neg]
-        ok = ft is not None and ft[1] == 'int' and len(neg) == 1 and len(pos) >= 1
-        if ok:
-            g = parent(neg[0])
-            ok = isinstance(g, ast.If) and isinstance(g.test, ast.Compare) and isinstance(g.test.ops[0], ast.Lt) and \
-                U(g.test.comparators[0]) == '1' and neg[0] in g.body and U(g.test.left) in U(neg[0].value)
+
+        def form(e):
+            """'NEGREC' for -int(1 / r), 'INT' for int(r); r = the rate variable"""
+            if isinstance(e, ast.UnaryOp) and isinstance(e.op, ast.USub):
+                c = e.operand
+                if isinstance(c, ast.Call) and U(c.func) in ('int', 'round') and c.args and isinstance(c.args[0], ast.BinOp) and \
+                        isinstance(c.args[0].op, ast.Div) and U(c.args[0].left) == '1':
+                    return 'NEGREC', U(c.args[0].right)
+            if isinstance(e, ast.Call) and U(e.func) == 'int' and e.args and isinstance(e.args[0], ast.Name):
+                return 'INT', U(e.args[0])
+            return None, None
+
+        def below_one(t, var):
+            """truth of `rate < 1` that the test expresses when it is true: True / False (negated) / None"""
+            if isinstance(t, ast.Compare) and len(t.ops) == 1:
+                l, op, r_ = U(t.left), t.ops[0], U(t.comparators[0])
+                if l == var and r_ == '1':
+                    return True if isinstance(op, ast.Lt) else (False if isinstance(op, ast.GtE) else None)
+                if r_ == var and l == '1':
+                    return True if isinstance(op, ast.Gt) else (False if isinstance(op, ast.LtE) else None)
+            return None
+        cases = {}
+        for d in defs:
+            v = d.value
+            if isinstance(v, ast.IfExp):
+                for br, sense in ((v.body, True), (v.orelse, False)):
+                    fm_, var = form(br)
+                    b1 = below_one(v.test, var) if var else None
+                    if fm_ and b1 is not None:
+                        cases[b1 if sense else (not b1)] = fm_
+            else:
+                fm_, var = form(v)
+                g = parent(d)
+                if fm_ and isinstance(g, ast.If):
+                    b1 = below_one(g.test, var)
+                    if b1 is not None:
+                        cases[b1 if d in g.body else (not b1)] = fm_
+        ok = ft is not None and ft[1] == 'int' and cases.get(True) == 'NEGREC' and cases.get(False) == 'INT'
         if ok:
             ctx.ok(rule, f, s.stmt, 'writer stores -int(1/bpv) iff bpv < 1, with a signed codec')
         else:
